@@ -15,16 +15,16 @@ def TInv (w : World) : Prop :=
 
 def TPast (h c : World) : Prop :=
   ∀ k th, findTrial h k = some th → ∃ tc, findTrial c k = some tc ∧ th.rv ≤ tc.rv ∧ (th.rv = tc.rv → th = tc) ∧
-    ∀ ct, ct ≠ TCT.running → tHas th ct = true → tHas tc ct = true
+    (th.exp = tc.exp ∧ ∀ ct, ct ≠ TCT.running → tHas th ct = true → tHas tc ct = true)
 
 theorem TPast.refl (w : World) : TPast w w :=
-  fun _ th h => ⟨th, h, Nat.le_refl _, fun _ => rfl, fun _ _ hh => hh⟩
+  fun _ th h => ⟨th, h, Nat.le_refl _, fun _ => rfl, rfl, fun _ _ hh => hh⟩
 
 theorem TPast.trans {a b c : World} (h1 : TPast a b) (h2 : TPast b c) : TPast a c := by
   intro k ta ha
   obtain ⟨tb, hb, r1, e1, m1⟩ := h1 k ta ha
   obtain ⟨tc, hc, r2, e2, m2⟩ := h2 k tb hb
-  refine ⟨tc, hc, Nat.le_trans r1 r2, ?_, fun ct hne hh => m2 ct hne (m1 ct hne hh)⟩
+  refine ⟨tc, hc, Nat.le_trans r1 r2, ?_, m1.1.trans m2.1, fun ct hne hh => m2.2 ct hne (m1.2 ct hne hh)⟩
   intro e
   have h3 : ta.rv = tb.rv := by omega
   have h4 : tb.rv = tc.rv := by omega
@@ -59,7 +59,7 @@ theorem findTrial_append_none {w : World} {k : Key2} (t : TrialO) (h : findTrial
 theorem tframe {w w' : World} (hW : TInv w) (ht : w'.trials = w.trials) : TInv w' ∧ TPast w w' := by
   refine ⟨by unfold TInv; rw [ht]; exact hW, ?_⟩
   intro k th h
-  exact ⟨th, by unfold findTrial at h ⊢; rw [ht]; exact h, Nat.le_refl _, fun _ => rfl, fun _ _ hh => hh⟩
+  exact ⟨th, by unfold findTrial at h ⊢; rw [ht]; exact h, Nat.le_refl _, fun _ => rfl, rfl, fun _ _ hh => hh⟩
 
 /-- what the plans guarantee about their Trial calls, in terms of the store `hT` the Trial was read from -/
 def TJust (hT : World) : Call → Prop
@@ -94,7 +94,7 @@ theorem apply_pres_trial {hT w w' : World} {c : Call} (hW : TInv w) (hP : TPast 
         by_cases hk : t.key = k
         · rw [hk] at hnone; rw [hnone] at hh; cases hh
         · simp only [hk, if_false]
-          exact ⟨th, hh, Nat.le_refl _, fun _ => rfl, fun _ _ x => x⟩
+          exact ⟨th, hh, Nat.le_refl _, fun _ => rfl, rfl, fun _ _ x => x⟩
   | trialUpdateFin k' rv fin =>
     simp only [applyCall] at h
     split at h
@@ -121,8 +121,8 @@ theorem apply_pres_trial {hT w w' : World} {c : Call} (hW : TInv w) (hP : TPast 
             refine ⟨_, rfl, ?_⟩
             dsimp only
             split
-            · exact ⟨Nat.le_succ _, fun e => absurd e (by simp), fun _ _ x => x⟩
-            · exact ⟨Nat.le_refl _, fun _ => rfl, fun _ _ x => x⟩
+            · exact ⟨Nat.le_succ _, fun e => absurd e (by simp), rfl, fun _ _ x => x⟩
+            · exact ⟨Nat.le_refl _, fun _ => rfl, rfl, fun _ _ x => x⟩
   | trialStatus k' rv st =>
     simp only [applyCall] at h
     split at h
@@ -168,8 +168,8 @@ theorem apply_pres_trial {hT w w' : World} {c : Call} (hW : TInv w) (hP : TPast 
             have hkk : k = k' := hthk.symm.trans hk1
             subst hkk
             rw [ht0] at hh; cases hh
-            exact ⟨Nat.le_succ _, fun e => absurd e (by simp), fun ct hne hx => hkeep ct hne hx⟩
-          · exact ⟨Nat.le_refl _, fun _ => rfl, fun _ _ x => x⟩
+            exact ⟨Nat.le_succ _, fun e => absurd e (by simp), rfl, fun ct hne hx => hkeep ct hne hx⟩
+          · exact ⟨Nat.le_refl _, fun _ => rfl, rfl, fun _ _ x => x⟩
   | trialDelete k' => exact absurd hJ id
   | expUpdateFin k' rv fin =>
     simp only [applyCall] at h; split at h
